@@ -24,7 +24,9 @@ pub enum Case {
 fn mk_parametric(inst: &InstRep, declared: &[u64]) -> v1::ParametricInstance {
     let m = inst.to_msg();
     let mut p = v1::ParametricInstance::from(m);
-    p.parameters = declared
+    // the parameter list is a set: the three-parameter declaration is listed in descending id order
+    let order: Vec<u64> = if declared.len() >= 3 { declared.iter().rev().cloned().collect() } else { declared.to_vec() };
+    p.parameters = order
         .iter()
         .map(|id| {
             let mut x = v1::Parameter::default();
